@@ -406,7 +406,10 @@ def main(tier, seed, replay=None):
             todo = [m.group(1)] if m else todo
         if not drv_err:
             with concurrent.futures.ThreadPoolExecutor(max_workers=min(8, os.cpu_count() or 4)) as ex:
-                futs = [ex.submit(run_subject, dbin, n, iters, rounds) for n in sorted(todo)]
+                # subjects whose methods take a second instance get more rounds: the interesting
+                # interleaving (Equal reading the other set while it is being reordered) exists once per fresh instance
+                mirror = {s["name"] for s in SUBJECTS if s.get("mirror")}
+                futs = [ex.submit(run_subject, dbin, n, iters, rounds * (4 if n in mirror else 1)) for n in sorted(todo)]
                 results = [f.result() for f in futs]
     if drv_err:
         proof_broken = (proof_broken + " | " if proof_broken else "") + drv_err
